@@ -3,10 +3,10 @@ PROP = dict(
     parts=[
         # Part A: custom python runner (fw/c06_abi.py) + helper binary build/bin/c06_abi; replay files are *.sig (one signature)
         dict(name="abi-classification", harness="c06_abi", runner="custom", module="c06_abi", make=["build/bin/c06_abi"], replay_match=r"\.sig$",
-             quick=dict(sigs_per_abi=40, light_sigs=40), thorough=dict(sigs_per_abi=1500, light_sigs=600)),
+             quick=dict(sigs_per_abi=120, light_sigs=100), thorough=dict(sigs_per_abi=1500, light_sigs=600)),
         # Part B: rapidcheck harness props/c06.cpp (host execution through hostexec/msc)
         dict(name="args-assignment", harness="c06", replay_match=r"\.case$",
-             quick=dict(cases=40000, max_size=60, workers=8), thorough=dict(cases=1200000, max_size=80, workers=16)),
+             quick=dict(cases=320000, max_size=60, workers=16), thorough=dict(cases=1200000, max_size=80, workers=16)),
     ],
     rule=("Part A: signatures of 0-32 arguments (int8..int64/uintptr, float, double, 64/128/256/512-bit vectors; 15 % variadic) generated per ABI "
           "{SysV x86-64 (also via kCDecl and as sysv_abi on Windows), Win64 (also ms_abi on Linux), x64 vectorcall, x86-32 cdecl/stdcall/fastcall/"
